@@ -113,7 +113,10 @@ def generate(rng, tier):
         dof = None if dk == 'none' else (rng.randint(2, 12) if dk == 'scalar' else [rng.randint(2, 12) for _ in blocks])
         want_prec = rng.random() < 0.5 and all(invertible(b, kind) for b in blocks)
         out.append(dict(kind=kind + ':' + method, call=kind, method=method, is_list=nlist > 0, blocks=blocks, dof_kind=dk, dof=dof,
-                        prec=want_prec, labtype=rng.choice(['int', 'str'])))
+                        prec=want_prec, labtype=rng.choice(['int', 'str']),
+                        # data in tiny physical units (Tesla, Volt): every estimator is exactly scale-equivariant, the estimate of the
+                        # scaled data is scaled back and must equal the estimate of the unscaled data
+                        scale_pow=rng.choice([0, 0, 0, -30])))
     return out
 
 
@@ -128,7 +131,7 @@ def lab_value(c, l):
 
 def make_input(c, b):
     import rsatoolbox
-    X = np.array(b['rows8'], dtype=float) / 8
+    X = np.array(b['rows8'], dtype=float) / 8 * 2.0 ** c.get('scale_pow', 0)
     if c['call'] == 'residuals':
         return X
     return rsatoolbox.data.Dataset(X.copy(), obs_descriptors={'cond': [lab_value(c, l) for l in b['labs']]})
@@ -158,8 +161,9 @@ def run(c):
         prec = [prec] if prec is not None else None
     if len(cov) != len(c['blocks']):
         return {'error': 'WRONG_NUMBER_OF_ESTIMATES', 'msg': f'{len(cov)} for {len(c["blocks"])} inputs'}
-    return dict(cov=[np.asarray(m, float).tolist() for m in cov],
-                prec=None if prec is None else [np.asarray(m, float).tolist() for m in prec],
+    s2 = 2.0 ** (2 * c.get('scale_pow', 0))
+    return dict(cov=[(np.asarray(m, float) / s2).tolist() for m in cov],
+                prec=None if prec is None else [(np.asarray(m, float) * s2).tolist() for m in prec],
                 shapes=[list(np.shape(m)) for m in cov])
 
 
